@@ -329,6 +329,62 @@ fn accept_ev(w: &mut World, rng: &mut Rng, a: u64, raw_in: bool, sid: SessionId)
     }
 }
 
+fn tick(w: &mut World, d: u64) {
+    w.now += d;
+    w.set_time();
+    w.emit(json!({"ev": "Tick", "d": d}));
+}
+fn fetch_ev(w: &mut World, kind: &str, req: Flags, cnt: usize) {
+    let res: Vec<AddrInfo> = match kind {
+        "attempt" => w.store.fetch_addrs_to_attempt(cnt, req, |_| true),
+        "feeler" => w.store.fetch_addrs_to_feeler(cnt, |_| true),
+        "nat" => w.store.fetch_nat_addrs(cnt, req),
+        _ => w.store.fetch_random_addrs(cnt, req),
+    };
+    let ids: Vec<u64> = res.iter().map(|i| w.aid(&i.addr)).collect();
+    w.emit(json!({"ev": "Fetch", "kind": kind, "req": flag_bits(req.bits()), "n": cnt, "res": ids}));
+}
+/// the time boundaries of the fetch rules, hit exactly: DIAL_INTERVAL, one minute after a try, ADDR_TRY_TIMEOUT, ADDR_TIMEOUT
+fn boundaries(w: &mut World, rng: &mut Rng) {
+    let n = w.u.addrs.len() as u64;
+    let full = Flags::DISCOVERY | Flags::SYNC | Flags::RELAY;
+    let a = 1 + rng.below(n);
+    let m = w.u.addrs[a as usize - 1].clone();
+    w.store.add_outbound_addr(m.clone(), full);
+    w.emit(json!({"ev": "AddOutbound", "a": a, "fl": flag_bits(full.bits())}));
+    let all = |w: &mut World| {
+        for k in ["attempt", "feeler", "nat", "random"] {
+            fetch_ev(w, k, full, 50);
+        }
+    };
+    all(w);
+    for d in [14u64, 1, 1] {
+        tick(w, d); // lc = now - 14 / - 15 / - 16
+        all(w);
+    }
+    let now_ms = w.now * 1000;
+    if let Some(i) = w.store.mut_addr_manager().get_mut(&m) {
+        i.mark_tried(now_ms);
+        w.emit(json!({"ev": "MarkTried", "a": a}));
+    }
+    for d in [59u64, 1, 1] {
+        tick(w, d); // lt = now - 59 / - 60 / - 61
+        all(w);
+    }
+    tick(w, 259_200 - 16 - 61 - 1);
+    all(w); // lc = now - TRY_TIMEOUT + 1
+    for _ in 0..2 {
+        tick(w, 1);
+        all(w); // lc = now - TRY_TIMEOUT, then one second older
+    }
+    tick(w, 604_800 - 259_200 - 2);
+    all(w); // lc = now - ADDR_TIMEOUT + 1
+    for _ in 0..2 {
+        tick(w, 1);
+        all(w);
+    }
+}
+
 fn history(seed: u64, h: u64, steps: u64) {
     let mut rng = Rng::new(seed.wrapping_mul(1000003).wrapping_add(h));
     let u = make_universe(&mut rng, h);
@@ -379,6 +435,9 @@ fn history(seed: u64, h: u64, steps: u64) {
             }
             a += 1;
         }
+    }
+    if h % 4 == 0 {
+        boundaries(&mut w, &mut rng);
     }
     // one history in twelve is a ban storm: more than 1024 insertions into one BanList, short bans, ticks in between:
     // the periodic sweep of expired entries happens (and must never drop a live ban)
